@@ -233,8 +233,8 @@ func c11Check(c c11Case, x *vsched.Exec, initial bool, st *c11State, retd bool, 
 	// --- C11: cleanup exactly once, before the next open / return; sysctl discipline.
 	open := -1 // currently open connection
 	leaves, closes := map[string]int{}, map[string]int{}
-	var prev *bool      // value read at the current open
-	disabled := false    // we wrote 'false' successfully since that open
+	var prev *bool         // value read at the current open
+	disabled := false      // we wrote 'false' successfully since that open
 	lastSetAfterOpen := "" // last set call since the current open
 	cancelled := false
 	var attempts []time.Duration
@@ -358,7 +358,7 @@ func c11Check(c c11Case, x *vsched.Exec, initial bool, st *c11State, retd bool, 
 		if retErr != nil && strings.Contains(retErr.Error(), "failed to clean up connection") && !restoreFailedOther {
 			bad("C11:tolerated-restore-error-reported", "Dial returned %q although every failing restore was EPERM/ENOENT", retErr)
 		}
-		if restoreFailedOther && retErr == nil && !cancelled {
+		if restoreFailedOther && retErr == nil {
 			// "any other restore error is reported"
 			bad("C11:restore-error-swallowed", "a restore failed with a non-tolerated error but Dial returned nil")
 		}
